@@ -462,29 +462,46 @@ def check_gadget_default_set(rep, cfg):
 
 
 def check_sign_gadget(rep, cfg):
+    """the in-circuit sign convention, decided on the three methods' semantics with calls among them replaced by each other's semantics
+    (so it does not matter which of is_nonnegative / is_negative is written as the primitive):
+        is_nonnegative(x) = NOT bit 0 of the canonical little-endian bit decomposition,  is_negative = its negation,
+        abs(x) = select(is_nonnegative, x, -x)"""
+    from . import engine as E, summaries as S
     base = "<ark_r1cs_std::fields::fp::FpVar<fields::fq::u64::wrapper::Fq> as ark_curve::r1cs::fqvar_ext::FqVarExtension>::"
     S_ = mk("param", "self")
-    p = base + "is_nonnegative"
-    if p in cfg.prog.bodies:
-        out = cfg.run(p)
-        want = variant("Ok", Tm.eq(Tm.and_(Tm.index(mk("bits_le", S_), lit(0)), TRUE), FALSE))
-        v = out.value
-        lsb = mk("sign", S_)       # terms.index normalises bits_le(x)[0] to sign(x)
-        ok = v is variant("Ok", Tm.not_(lsb))
-        rep.ob("SIGN/R/is_nonnegative", ok, "in-circuit sign must be NOT(bit 0 of the canonical little-endian bit decomposition); got %s" % Tm.show(v, maxdepth=5), where=cfg.where(p))
-    p = base + "is_negative"
-    if p in cfg.prog.bodies:
-        out = cfg.run(p, local={base + "is_nonnegative": (lambda ctx: variant("Ok", mk("nonneg", ctx.args[0])))})
-        rep.ob("SIGN/R/is_negative", out.value is variant("Ok", Tm.not_(mk("nonneg", S_))), "is_negative must be NOT is_nonnegative; got %s" % Tm.show(out.value, maxdepth=4), where=cfg.where(p), nontrivial=False)
-    p = base + "abs"
-    if p in cfg.prog.bodies:
-        out = cfg.run(p, local={base + "is_nonnegative": (lambda ctx: variant("Ok", mk("nonneg", ctx.args[0])))})
-        rep.ob("SIGN/R/abs", out.value is variant("Ok", Tm.ite(mk("nonneg", S_), S_, mk("neg", S_))), "abs must be select(is_nonnegative, self, -self); got %s" % Tm.show(out.value, maxdepth=4), where=cfg.where(p))
+    methods = ("is_nonnegative", "is_negative", "abs")
+    if not all((base + m) in cfg.prog.bodies for m in methods):
+        rep.fail_closed("FqVarExtension sign methods not found")
+        return
+    memo, busy = {}, set()
 
+    def sem(m, arg):
+        if m in busy:
+            return variant("Ok", mk("cyclic", m))
+        if m not in memo:
+            busy.add(m)
+            loc = {}
+            for m2 in methods:
+                if m2 != m:
+                    loc[base + m2] = (lambda mm: (lambda ctx: sem(mm, ctx.args[0])))(m2)
+            I = E.Interp(cfg.prog, S.Summaries(local=loc), {})
+            out = I.run(base + m)
+            busy.discard(m)
+            memo[m] = (out.value, out.params[0] if out.params else S_, list(out.unmodelled))
+        v, par, unm = memo[m]
+        return Tm.subst(v, {par: arg}) if par is not arg else v
+    lsb = mk("sign", S_)       # terms.index normalises bits_le(x)[0] to sign(x)
+    nonneg = Tm.not_(lsb)
+    v = sem("is_nonnegative", S_)
+    rep.ob("SIGN/R/is_nonnegative", v is variant("Ok", nonneg) and not memo["is_nonnegative"][2],
+           "in-circuit sign must be NOT(bit 0 of the canonical little-endian bit decomposition); got %s" % Tm.show(v, maxdepth=5), where=cfg.where(base + "is_nonnegative"))
+    v = sem("is_negative", S_)
+    rep.ob("SIGN/R/is_negative", v is variant("Ok", lsb) and not memo["is_negative"][2],
+           "is_negative must be the negation of is_nonnegative (bit 0 itself); got %s" % Tm.show(v, maxdepth=4), where=cfg.where(base + "is_negative"), nontrivial=False)
+    v = sem("abs", S_)
+    rep.ob("SIGN/R/abs", v is variant("Ok", Tm.ite(nonneg, S_, mk("neg", S_))) and not memo["abs"][2],
+           "abs must be select(is_nonnegative, self, -self); got %s" % Tm.show(v, maxdepth=4), where=cfg.where(base + "abs"))
 
-# =====================================================================================================
-# allocation modes, witness path, public input
-# =====================================================================================================
 
 def alloc_modes(rep, cfg, pid):
     """inner::AllocVar<Element>::new_variable per mode"""
